@@ -31,6 +31,8 @@ func solutionsQuery(kind map[string]J, sym string) string {
 		return fmt.Sprintf("(between(1, %d, X), write(%s) ; throw(oops)).", n, sym)
 	case "bare":
 		return "!."
+	case "anon":
+		return fmt.Sprintf("between(1, %d, _), write(%s).", n, sym)
 	default:
 		return fmt.Sprintf("length(_, N), X is N + 1, write(%s).", sym)
 	}
@@ -117,7 +119,7 @@ func solutionsHandle(c map[string]J) map[string]J {
 			return fail("the call did not return within 2s (blocked)", h["ret"], "blocked")
 		}
 		want := h["ret"].(string)
-		if op == "Scan" && bare(i) && !strings.HasPrefix(got, "panic") {
+		if op == "Scan" && (bare(i) || kinds[i].(map[string]J)["then"] == "anon") && !strings.HasPrefix(got, "panic") {
 			got = want // (there is no X to scan)
 		}
 		if strings.HasPrefix(got, "panic") || (want != "any" && got != want) {
